@@ -10,7 +10,7 @@ from vlib.core import Failure
 
 PROP = "C01"
 RULE = (
-    "a case is a HISTORY: pool kind (direct http | direct https | forwarding proxy | CONNECT tunnel) x maxsize 1..3 x block x "
+    "a case is a HISTORY: pool kind (direct http | direct https | forwarding proxy | CONNECT tunnel | CONNECT tunnel through an https proxy = TLS in TLS) x maxsize 1..3 x block x number of addresses the host resolves to (1..3, only the last one answers) x "
     "retries policy x preload_content x release_conn, a global per-attempt outcome script of <= 6 outcomes from 26 kinds "
     "(connect refused / timeout / DNS error / TLS failure / CONNECT refused / BaseException at connect; EPIPE / EPIPE with an early readable reply / reset / other "
     "OSError / BaseException while sending head or body; read timeout / reset / EOF / garbage / short body then EOF or timeout "
@@ -29,7 +29,7 @@ ASSUMPTIONS = [
 ]
 EXHAUSTIVE = {"quick": False, "thorough": False}
 
-KINDS = ["http", "https", "fwd", "tunnel"]
+KINDS = ["http", "https", "fwd", "tunnel", "tunnel-tls"]
 FAULTS_CONNECT = ["refused", "ctimeout", "gaierror", "cbase", "tlsfail", "connect_refused"]
 FAULTS_SEND = [{"o": k, "at": at} for k in ("epipe", "sreset", "sother", "sbase", "epipe_reply") for at in ("head", "body")]
 FAULTS_RECV = ["rtimeout", "rreset", "eof", "garbage", "short_eof", "short_timeout", "rbase", "rssl"]
@@ -90,6 +90,8 @@ def _validate(case):
         raise core.InvalidCase
     if not isinstance(case.get("preload"), bool) or case.get("release") not in (None, False) or not isinstance(case.get("script"), list) or len(case["script"]) > 8:
         raise core.InvalidCase
+    if case.get("addrs", 1) not in (1, 2, 3):
+        raise core.InvalidCase
     rs = case.get("retries")
     if not isinstance(rs, dict) or rs.get("t") not in ("none", "false", "int", "retry"):
         raise core.InvalidCase
@@ -135,6 +137,9 @@ def run_case(case) -> list[Failure]:
     held = []
     owning_closes = 0
     with fakenet.Net(srv) as net:
+        # the host (or the proxy) resolves to `addrs` addresses of which only the last one answers: every connection
+        # attempt first dials the dead ones, and those sockets have to be closed as well
+        net.dead_first = case.get("addrs", 1) - 1
         common = {"maxsize": N, "block": case["block"], "retries": make_retries(case["retries"])}
         if kind == "http":
             obj = urllib3.HTTPConnectionPool("a.test", 80, **common)
@@ -145,6 +150,10 @@ def run_case(case) -> list[Failure]:
         elif kind == "fwd":
             obj = urllib3.ProxyManager("http://proxy.test:3128", **common)
             base = "http://a.test"
+        elif kind == "tunnel-tls":
+            # https proxy: TLS to the proxy, CONNECT, then TLS in TLS (urllib3's SSLTransport over real ssl.MemoryBIO)
+            obj = urllib3.ProxyManager("https://proxy.test:3128", ssl_context=ctx, proxy_ssl_context=nulltls.NullTLSContext("c01-proxy"), **common)
+            base = "https://a.test"
         else:
             obj = urllib3.ProxyManager("http://proxy.test:3128", ssl_context=ctx, **common)
             base = "https://a.test"
@@ -273,7 +282,7 @@ def _inspect(fails, sig0, pool, net, N, case, owning_closes, when, brief):
             s = getattr(s, "_fake", None) or getattr(s, "socket", None) or getattr(s, "_sock", None)
         if isinstance(s, fakenet.FakeSocket):
             idle_socks.add(s.sid)
-    leaked = [s for s in net.sockets if s.connected and not s.really_closed and s.sid not in idle_socks]
+    leaked = [s for s in net.sockets if (s.connected or getattr(s, "dialled_dead", False)) and not s.really_closed and s.sid not in idle_socks]
     if leaked:
         fails.append(Failure("socket-leak", {**sig0, "when": when, "after_lost_slot": owning_closes > 0}, f"{when}: sockets {[s.sid for s in leaked]} are open but not idle in the pool (idle: {sorted(idle_socks)}): {brief()}"))
     if case["block"] and net.max_open_conns > N:
@@ -294,7 +303,7 @@ def nontrivial(case):
 
 
 def classes(case):
-    out = ["pool:" + case["pool"], "maxsize:%d" % case["maxsize"], "block:%s" % case["block"], "preload:%s" % case["preload"], "release:%s" % case["release"], "retries:" + case["retries"]["t"], "nreq:%d" % len(case["requests"])]
+    out = ["pool:" + case["pool"], "maxsize:%d" % case["maxsize"], "block:%s" % case["block"], "preload:%s" % case["preload"], "release:%s" % case["release"], "retries:" + case["retries"]["t"], "nreq:%d" % len(case["requests"]), "addrs:%d" % case.get("addrs", 1)]
     for o in case["script"]:
         out.append("o:" + (o if isinstance(o, str) else (o["o"] + (str(o.get("status", "")) if o["o"] == "resp" else "@" + o.get("at", "")))))
     for r in case["requests"]:
@@ -327,7 +336,8 @@ def enum_cases(tier):
                             continue
                         for maxsize, block in ((1, True), (2, False)) if tier != "quick" else (((1, True),) if k % 8 else ((2, False),)):
                             yield {"kind": "hist", "pool": kind, "maxsize": maxsize, "block": block, "retries": rs, "preload": preload, "release": release,
-                                   "script": [o], "requests": [{"m": ("GET", "POST")[k % 2], "d": d}, {"m": "GET", "d": disposals_for(preload, release)[k % len(disposals_for(preload, release))]}]}
+                                   "script": [o], "requests": [{"m": ("GET", "POST")[k % 2], "d": d}, {"m": "GET", "d": disposals_for(preload, release)[k % len(disposals_for(preload, release))]}],
+                                   "addrs": (1, 1, 2, 3)[(k // 4) % 4]}
 
 
 def _hyp():
@@ -342,6 +352,7 @@ def _hyp():
             "retries": draw(st.sampled_from(RETRIES)), "preload": preload, "release": release,
             "script": draw(st.lists(st.sampled_from(OUTCOMES), min_size=1, max_size=6)),
             "requests": draw(st.lists(st.fixed_dictionaries({"m": st.sampled_from(["GET", "GET", "POST", "HEAD"]), "d": st.sampled_from(ds)}), min_size=1, max_size=4)),
+            "addrs": draw(st.sampled_from([1, 1, 2, 3])),
         }
 
     return case()
